@@ -2,6 +2,8 @@ import Firefly.Gen.C13
 import Firefly.Spec.C13
 import Firefly.Proof.AmlTree
 import Firefly.Proof.AmlTreeOps
+import Firefly.Proof.AmlTreeAbs
+import Firefly.Proof.AmlTreeFind
 /-!
 # C13 — Namespace tree stays well-formed and path lookup follows ACPI search rules
 
@@ -106,33 +108,32 @@ contains `i`) is exactly the pool's parent link -/
 theorem forest_parent_is_link {t : ObjectTree} (w : WF t) (i : Nat) (hl : live t i = true) :
     (abs t).parentOf i = if P t i = INV then none else some (P t i) := w.parentOf_abs i hl
 
-/-- **find_correct_partial** — `Find` = `resolve` on the abstracted forest, proved for the
-expressions without name segments: `\` (root prefix clause) and `^…^` (each `^` one parent up, not
-found above a root).  Full statement (not proved; decided per lookup by the oracle on the
-implementation's results): for every `p : Path` with `p.valid`, every live `scope`, `live t 0`:
-`t.Find scope (encode p) = .ok (optIdx (resolve (abs t) scope p))` — missing are the clauses with
-segments (`descend`: downward only; `searchUp`: scope, then each enclosing scope). -/
-theorem find_correct_partial {t : ObjectTree} (w : WF t) (scope : Nat) (hs : live t scope = true)
-    (p : Path) (hv : p.valid = true) (hsegs : p.segs = []) :
-    t.Find scope (encode p) = .ok (optIdx (resolve (abs t) scope p)) := by
-  obtain ⟨pre, segs, form⟩ := p
-  simp only at hsegs
-  subst hsegs
-  have hne : scope ≠ InvalidIndex := live_ne_INV w.size_le hs
-  cases pre with
-  | root =>
-    simp [encode, encodePre, encodeBody, ObjectTree.Find, hne, resolve, Path.isSimple, Forest.descend, optIdx]
-  | up k =>
-    cases k with
-    | zero => simp [Path.valid] at hv
-    | succ k =>
-      have h1 : encode ⟨.up (k + 1), [], form⟩ = List.replicate (k + 1) 0x5e := by
-        simp [encode, encodePre, encodeBody]
-      have h2 : resolve (abs t) scope ⟨.up (k + 1), [], form⟩ = (abs t).climb (k + 1) scope := by
-        simp only [resolve, Path.isSimple]
-        cases (abs t).climb (k + 1) scope <;> simp [Forest.descend]
-      rw [h2, ← w.findCarets_climb (k + 1) scope hs, h1]
-      simp [ObjectTree.Find, List.replicate_succ, hne]
+/-- **find_correct** — for every valid path expression `p` (`Path.valid`: segments start with
+`A–Z`/`_`, at most 255 of them, not the empty relative name; any prefix `\` or `^…^`; canonical,
+MultiNamePrefix or raw-concatenated encoding — with **any** segment count, also 65–90 and 95 after
+the D8 repair), every live scope, on a well-formed pool whose root slot 0 is live:
+`Find` on the encoded bytes returns exactly what the four-clause ACPI rule `resolve` designates on the
+abstracted forest (children = scope, parents derived from the child lists), `InvalidIndex` when the
+rule finds nothing. -/
+theorem find_correct {t : ObjectTree} (w : WF t) (hroot : live t 0 = true) (scope : Nat)
+    (hs : live t scope = true) (p : Path) (hv : p.valid = true) :
+    t.Find scope (encode p) = .ok (optIdx (resolve (abs t) scope p)) :=
+  find_correct' w hroot scope hs p hv
+
+/-- what the replay oracle decodes is a valid path whose encoding is the expression it was given, so
+every oracle comparison `Find … = resolve …` is an instance of `find_correct` -/
+theorem decode_sound {e : List UInt8} {p : Path} (h : decode e = some p) : p.valid = true ∧ encode p = e := by
+  unfold decode at h
+  cases hc : decodeCandidate e with
+  | none => simp [hc] at h
+  | some q =>
+    simp only [hc] at h
+    split at h
+    · rename_i hv
+      simp only [Bool.and_eq_true, decide_eq_true_eq] at hv
+      cases h
+      exact hv
+    · cases h
 
 /-- **free_slots_reused_first** — `newObject` on a well-formed pool: if some slot is freed the pool
 does not grow and the returned position is a freed slot; only if no slot is freed does the pool
@@ -165,15 +166,11 @@ theorem free_slots_reused_first {t t' : ObjectTree} (w : WF t) (opcode info th i
     refine ⟨fun _ => ⟨by simp [setAt], hlt, hnl⟩, fun hall' => ?_⟩
     rw [hall' _ hlt] at hnl; cases hnl
 
-/-- **ops_preserve_WF_partial** — proved for `newObject` only.  Full statement (not proved; decided
-per run by the oracle, which checks `wfCheck` — sound by `wfCheck_sound` — on the implementation's
-pool after every operation): each of `newObject`, `append`, `appendAfter`, `detach`, `free` under
-its contract (`newPre`, `appendPre`, `appendAfterPre`, `detachPre`, `freePre` of `Spec/C13.lean`)
-returns `.ok t'` with `WF t'` and the obvious effect on `abs`.  Here: `newObject` under
-`pool.size < 2^32-1` and an opcode other than the freed marker succeeds, preserves `WF`, and changes
-nothing but one slot `i`, not live before, which now holds a live object with all five links
-`InvalidIndex` (a new detached node without arguments). -/
-theorem ops_preserve_WF_partial {t : ObjectTree} (w : WF t) (opcode info th : Nat)
+/-- **newObject_preserves_WF** — `newObject` under `pool.size < 2^32-1` and an opcode other than
+the freed marker succeeds, preserves `WF`, and changes nothing but one slot `i`, not live before,
+which now holds a live object with all five links `InvalidIndex` (a new detached node without
+arguments). -/
+theorem newObject_preserves_WF {t : ObjectTree} (w : WF t) (opcode info th : Nat)
     (hpre : newPre t = true) (hop : opcode ≠ pOpIntFreedObject) :
     ∃ t' i, t.newObject opcode info th = .ok (t', i) ∧ WF t' ∧
       live t i = false ∧ live t' i = true ∧ (∀ x, x ≠ i → slot t' x = slot t x ∧ live t' x = live t x) ∧
@@ -206,31 +203,107 @@ theorem append_preserves_WF {t : ObjectTree} (w : WF t) {obj arg : Nat} (hpre : 
       (∀ x, Fi t' x = if x = obj ∧ La t obj = INV then arg else Fi t x) ∧
       (∀ x, La t' x = if x = obj then arg else La t x) := append_wf w hpre
 
-/-- **history_partial** — induction over histories, for the operation proved so far: any sequence
-of `newObject` calls from a well-formed pool (in particular from the empty pool) that stays below
-`2^32-1` slots never fails and ends in a well-formed pool.  Missing: the other four operations (see
-`ops_preserve_WF_partial`). -/
-theorem history_partial (ops : List (Nat × Nat × Nat)) :
-    ∀ t : ObjectTree, WF t → t.pool.size + ops.length ≤ INV → (∀ o ∈ ops, o.1 ≠ pOpIntFreedObject) →
-      ∃ t', ops.foldlM (fun t o => (fun r => r.1) <$> t.newObject o.1 o.2.1 o.2.2) t = .ok t' ∧ WF t' := by
+/-- **appendAfter_preserves_WF** — `appendAfter(obj, arg, nextTo)` under its contract
+(`appendAfterPre`: as `append`, and `nextTo` is a live child of `obj`) returns normally, the pool
+stays well-formed, and `arg` becomes the child of `obj` right after `nextTo`. -/
+theorem appendAfter_preserves_WF {t : ObjectTree} (w : WF t) {obj arg nextTo : Nat}
+    (hpre : appendAfterPre t obj arg nextTo = true) :
+    ∃ t', t.appendAfter obj arg nextTo = .ok t' ∧ WF t' ∧
+      t'.pool.size = t.pool.size ∧ (∀ x, live t' x = live t x) ∧ (∀ x, (slot t' x).name = (slot t x).name) ∧
+      (∀ x, P t' x = if x = arg then obj else P t x) ∧
+      (∀ x, Pv t' x = if x = arg then nextTo else if x = Nx t nextTo ∧ Nx t nextTo ≠ INV then arg else Pv t x) ∧
+      (∀ x, Nx t' x = if x = arg then Nx t nextTo else if x = nextTo then arg else Nx t x) ∧
+      (∀ x, Fi t' x = Fi t x) ∧
+      (∀ x, La t' x = if x = obj ∧ Nx t nextTo = INV then arg else La t x) := appendAfter_wf w hpre
+
+/-- **free_preserves_WF** — `free(obj)` under its contract (`freePre`: live, no arguments) returns
+normally (the explicit Go panic is not reached), the pool stays well-formed, `obj` is the only
+object that dies, it becomes the head of the free list in front of the old head, and every other
+slot is what `detach(parent, obj)` left (or unchanged if `obj` had no parent). -/
+theorem free_preserves_WF {t : ObjectTree} (w : WF t) {obj : Nat} (hpre : freePre t obj = true) :
+    ∃ t', t.free obj = .ok t' ∧ WF t' ∧ t'.pool.size = t.pool.size ∧
+      (∀ x, live t' x = (live t x && decide (x ≠ obj))) ∧
+      t'.freeListHeadIndex = obj ∧ Nx t' obj = t.freeListHeadIndex ∧
+      ∃ t1, ((P t obj = INV ∧ t1 = t) ∨ (P t obj ≠ INV ∧ t.detach (P t obj) obj = .ok t1)) ∧
+        ∀ x, x ≠ obj → slot t' x = slot t1 x := free_wf w hpre
+
+/-! ### effect of each operation on the abstract forest (`abs` before / after) -/
+
+/-- **newObject_effect** — one new node `i` without children; every other node keeps its name and
+child list. -/
+theorem newObject_effect {t : ObjectTree} (w : WF t) (opcode info th : Nat)
+    (hpre : newPre t = true) (hop : opcode ≠ pOpIntFreedObject) :
+    ∃ t' i, t.newObject opcode info th = .ok (t', i) ∧ WF t' ∧ live t i = false ∧
+      (∀ x, x ∈ (abs t').ids ↔ (x ∈ (abs t).ids ∨ x = i)) ∧
+      (∀ x, x ≠ i → (abs t').name x = (abs t).name x) ∧
+      (abs t').kids i = [] ∧ ∀ p, live t p = true → (abs t').kids p = (abs t).kids p :=
+  newObject_abs w opcode info th hpre hop
+
+/-- **append_effect** — same nodes and names; `arg` is added at the end of `obj`'s child list and
+no other child list changes. -/
+theorem append_effect {t : ObjectTree} (w : WF t) {obj arg : Nat} (hpre : appendPre t obj arg = true) :
+    ∃ t', t.append obj arg = .ok t' ∧ WF t' ∧ (abs t').ids = (abs t).ids ∧
+      (∀ x, (abs t').name x = (abs t).name x) ∧
+      ∀ p, live t p = true → (abs t').kids p = if p = obj then (abs t).kids obj ++ [arg] else (abs t).kids p :=
+  append_abs w hpre
+
+/-- **appendAfter_effect** — same nodes and names; `arg` is inserted into `obj`'s child list right
+after `nextTo` and no other child list changes. -/
+theorem appendAfter_effect {t : ObjectTree} (w : WF t) {obj arg nextTo : Nat}
+    (hpre : appendAfterPre t obj arg nextTo = true) :
+    ∃ t', t.appendAfter obj arg nextTo = .ok t' ∧ WF t' ∧ (abs t').ids = (abs t).ids ∧
+      (∀ x, (abs t').name x = (abs t).name x) ∧
+      ∀ p, live t p = true →
+        (abs t').kids p = if p = obj then insertAfter nextTo arg ((abs t).kids obj) else (abs t).kids p :=
+  appendAfter_abs w hpre
+
+/-- **detach_effect** — same nodes and names; `arg` is removed from `obj`'s child list and no other
+child list changes (`arg` keeps its own children). -/
+theorem detach_effect {t : ObjectTree} (w : WF t) {obj arg : Nat} (hpre : detachPre t obj arg = true) :
+    ∃ t', t.detach obj arg = .ok t' ∧ WF t' ∧ (abs t').ids = (abs t).ids ∧
+      (∀ x, (abs t').name x = (abs t).name x) ∧
+      ∀ p, live t p = true → (abs t').kids p = if p = obj then ((abs t).kids obj).erase arg else (abs t).kids p :=
+  detach_abs w hpre
+
+/-- **free_effect** — `obj` disappears from the node set and from every child list (it was in at
+most its parent's); every other node keeps its name and its other children. -/
+theorem free_effect {t : ObjectTree} (w : WF t) {obj : Nat} (hpre : freePre t obj = true) :
+    ∃ t', t.free obj = .ok t' ∧ WF t' ∧
+      (∀ x, x ∈ (abs t').ids ↔ (x ∈ (abs t).ids ∧ x ≠ obj)) ∧
+      (∀ x, x ≠ obj → (abs t').name x = (abs t).name x) ∧
+      ∀ p, live t p = true → p ≠ obj → (abs t').kids p = ((abs t).kids p).erase obj :=
+  free_abs w hpre
+
+/-- **ops_preserve_WF** — every editing operation, run under its caller contract on a well-formed
+pool, returns normally (no `.panic`, no `.outOfFuel`) and leaves a well-formed pool. -/
+theorem ops_preserve_WF {t : ObjectTree} (w : WF t) (o : Op) (hpre : o.pre t = true) :
+    ∃ t', o.run t = .ok t' ∧ WF t' := by
+  cases o with
+  | new opcode info th =>
+    simp only [Op.pre, Bool.and_eq_true, decide_eq_true_eq] at hpre
+    obtain ⟨t', i, h, w', _⟩ := newObject_wf w opcode info th (by simpa [newPre] using hpre.1) hpre.2
+    exact ⟨t', by simp [Op.run, h, Except.map], w'⟩
+  | append obj arg =>
+    obtain ⟨t', h, w', _⟩ := append_wf w hpre; exact ⟨t', h, w'⟩
+  | appendAfter obj arg nextTo =>
+    obtain ⟨t', h, w', _⟩ := appendAfter_wf w hpre; exact ⟨t', h, w'⟩
+  | detach obj arg =>
+    obtain ⟨t', h, w', _⟩ := detach_wf w hpre; exact ⟨t', h, w'⟩
+  | free obj =>
+    obtain ⟨t', h, w', _⟩ := free_wf w hpre; exact ⟨t', h, w'⟩
+
+/-- **history** — induction over operation lists: any contract-respecting history (`Legal`) of
+creations, appends, insert-afters, detaches and frees, started on a well-formed pool (in particular
+the empty pool), runs to completion without `.panic`/`.outOfFuel` and ends in a well-formed pool. -/
+theorem history (ops : List Op) : ∀ t : ObjectTree, WF t → Legal t ops →
+    ∃ t', runOps t ops = .ok t' ∧ WF t' := by
   induction ops with
-  | nil => intro t w _ _; exact ⟨t, rfl, w⟩
-  | cons o ops ih =>
-    intro t w hsz hop
-    obtain ⟨t1, i, h, w1, fr⟩ := newObject_wf w o.1 o.2.1 o.2.2 (by simp at hsz; omega) (hop o (by simp))
-    have hs1 : t1.pool.size ≤ t.pool.size + 1 := by
-      have := (free_slots_reused_first w _ _ _ _ h)
-      by_cases hx : ∃ j, j < t.pool.size ∧ live t j = false
-      · have := (this.1 hx).1; omega
-      · have := (this.2 (fun j hj => by
-          cases hl : live t j with
-          | true => rfl
-          | false => exact absurd ⟨j, hj, hl⟩ hx)).1
-        omega
-    obtain ⟨t', h', w'⟩ := ih t1 w1 (by simp at hsz; omega) (fun o' ho' => hop o' (by simp [ho']))
-    refine ⟨t', ?_, w'⟩
-    simp only [List.foldlM_cons, h, Functor.map, Except.map, bind, Except.bind]
-    exact h'
+  | nil => intro t w _; exact ⟨t, rfl, w⟩
+  | cons o os ih =>
+    intro t w hl
+    obtain ⟨t1, h1, w1⟩ := ops_preserve_WF w o hl.1
+    obtain ⟨t', h', w'⟩ := ih t1 w1 (hl.2 t1 h1)
+    exact ⟨t', by simp [runOps, h1, Except.bind, h'], w'⟩
 
 /-! ## non-vacuity: concrete well-formed pools, and a concrete lookup -/
 
@@ -241,13 +314,18 @@ def exTree : ObjectTree :=
   | .error _ => NewObjectTree
 
 example : WF NewObjectTree := wfCheck_sound (by decide)
+/-- a legal history from the empty pool: root, two children, insert between, detach, free, reuse -/
+example : Legal NewObjectTree [.new 502 113 0, .new 385 106 0, .new 385 106 0, .append 0 1, .append 0 2,
+    .new 8 3 0, .appendAfter 0 3 1, .detach 0 2, .free 2, .new 8 3 0, .append 3 2] :=
+  legal_of_legalB _ _ (by decide)
 example : WF exTree ∧ live exTree 0 = true ∧ live exTree 3 = true ∧ newPre exTree = true :=
   ⟨wfCheck_sound (by decide), by decide, by decide, by decide⟩
 /-- `_SB_` from scope `_SB_` is found in the enclosing (root) scope; `^_TZ_` goes one level up -/
 example : exTree.Find 3 (Name.ofString "_SB_").toList = .ok 3 ∧
     exTree.Find 3 (0x5e :: (Name.ofString "_TZ_").toList) = .ok 5 ∧
     exTree.Find 3 [0x5e, 0x5e] = .ok INV := by decide
-example : (⟨.up 2, [], .canon⟩ : Path).valid = true ∧ (⟨.root, [], .canon⟩ : Path).valid = true := by decide
+example : (⟨.up 2, [], .canon⟩ : Path).valid = true ∧ (⟨.root, [Name.ofString "_SB_", Name.ofString "PCI0"], .canon⟩ : Path).valid = true ∧
+    decode (encode ⟨.up 1, [Name.ofString "_TZ_"], .canon⟩) = some ⟨.up 1, [Name.ofString "_TZ_"], .canon⟩ := by decide
 example : exTree.NumArgs (some 0) = .ok 5 ∧ (abs exTree).kids 0 = [1, 2, 3, 4, 5] := by decide
 /-- a pool with a freed slot: the next `newObject` reuses it -/
 example : ∃ t t' , exTree.free 4 = .ok t ∧ WF t ∧ t.newObject 1 1 0 = .ok (t', 4) ∧ t'.pool.size = 6 := by
